@@ -10,4 +10,6 @@ for d in harness/cmd/*/; do
   id=$(basename "$d")
   VERIF_BUILD_ONLY=1 ./check "$id" >/dev/null 2>&1 || echo "warm-up build of $id failed (the check itself will report it)"
 done
+# sanity of the engine itself (toy programs with known verdicts); a failure is reported, the checks still run
+./check selftest > .build/selftest.log 2>&1 || echo "WARNING: scheduler self-test failed, see .build/selftest.log"
 echo setup done
